@@ -611,6 +611,10 @@ pub fn parent_main(prop: &dyn Property, tier: Tier) -> i32 {
         println!("NOTE: {n}");
     }
     let mut harness_fail = false;
+    {
+        let mut seen = std::collections::HashSet::new();
+        violations.retain(|v| seen.insert((v.failure.sig.clone(), digest(&v.case))));
+    }
     for v in &violations {
         if v.failure.oracle == "harness" {
             println!("HARNESS-ERROR property={id} {}", v.failure.detail);
